@@ -2,21 +2,17 @@
 package c08
 
 import (
-	"bytes"
-	"context"
 	"fmt"
 	"sort"
 	"strings"
 	"sync"
-	"sync/atomic"
 	"testing"
 	"time"
 
 	"github.com/godaddy/asherah/go/appencryption"
-	"github.com/godaddy/asherah/go/appencryption/pkg/crypto/aead"
 	"pgregory.net/rapid"
+	"verif/conc"
 	"verif/kit"
-	"verifhook"
 )
 
 func TestMain(m *testing.M) {
@@ -29,240 +25,26 @@ func TestMain(m *testing.M) {
 		"schedules are sampled (preemption-bounded), not enumerated: a violation needing more than 3 coordinated preemptions may be missed", "virtual clock and yield points injected by build overlay")
 }
 
-var ctx = context.Background()
-
-type config struct {
-	pol        *appencryption.CryptoPolicy
-	partitions int
-	workers    int
-	opsPer     int
-	seedOps    []int // per worker: pseudo-random stream seed
-}
-
-func (c config) class() string {
-	p := c.pol
-	s := fmt.Sprintf("ik=%s/%d sk=%s/%d shared=%v", p.IntermediateKeyCacheEvictionPolicy, p.IntermediateKeyCacheMaxSize, p.SystemKeyCacheEvictionPolicy, p.SystemKeyCacheMaxSize, p.SharedIntermediateKeyCache)
-	if p.CacheSessions {
-		s += fmt.Sprintf(" sess=%s/%d", p.SessionCacheEvictionPolicy, p.SessionCacheMaxSize)
-	}
-	return s
-}
-
-func drawConfig(t *rapid.T) config {
-	p := appencryption.NewCryptoPolicy()
-	p.ExpireKeyAfter = time.Hour
-	p.RevokeCheckInterval = time.Second
-	p.CreateDatePrecision = time.Second
-	pols := []string{"simple", "lru", "lfu", "slru", "tinylfu"}
-	caps := []int{1, 1, 2, 3, 100, 101}
-	p.IntermediateKeyCacheEvictionPolicy = rapid.SampledFrom(pols).Draw(t, "ikPolicy")
-	p.IntermediateKeyCacheMaxSize = rapid.SampledFrom(caps).Draw(t, "ikCap")
-	p.SystemKeyCacheEvictionPolicy = rapid.SampledFrom(pols).Draw(t, "skPolicy")
-	p.SystemKeyCacheMaxSize = rapid.SampledFrom(caps).Draw(t, "skCap")
-	p.SharedIntermediateKeyCache = rapid.IntRange(0, 9).Draw(t, "shared") < 6
-	if rapid.IntRange(0, 9).Draw(t, "sessCache") < 4 {
-		p.CacheSessions = true
-		p.SessionCacheMaxSize = rapid.IntRange(1, 3).Draw(t, "sessCap")
-		p.SessionCacheEvictionPolicy = rapid.SampledFrom([]string{"", "lru", "lfu", "slru", "tinylfu"}).Draw(t, "sessPolicy")
-		p.SessionCacheDuration = rapid.SampledFrom([]time.Duration{0, 2 * time.Second, 2 * time.Hour}).Draw(t, "sessDur")
-	}
-	c := config{pol: p, workers: rapid.IntRange(2, 8).Draw(t, "workers"), opsPer: rapid.IntRange(10, 40).Draw(t, "ops")}
-	c.partitions = rapid.IntRange(3, 6).Draw(t, "partitions")
-	if p.IntermediateKeyCacheMaxSize >= 100 && p.SharedIntermediateKeyCache {
-		c.partitions = 60 // > capacity / generations so that asynchronous eviction happens
-	}
-	for i := 0; i < c.workers; i++ {
-		c.seedOps = append(c.seedOps, rapid.IntRange(1, 1<<30).Draw(t, "stream"))
-	}
-	return c
-}
-
-type pooled struct {
-	part    string
-	payload []byte
-	drr     appencryption.DataRowRecord
-}
-
-type outcome struct {
-	viol      string
-	fired     int
-	destroyed int
-	sites     []string
-	hits      map[string]int
-}
-
-func cloneDRR(d appencryption.DataRowRecord) appencryption.DataRowRecord {
-	k := *d.Key
-	k.EncryptedKey = append([]byte(nil), d.Key.EncryptedKey...)
-	pm := *d.Key.ParentKeyMeta
-	k.ParentKeyMeta = &pm
-	return appencryption.DataRowRecord{Key: &k, Data: append([]byte(nil), d.Data...)}
-}
-
-// runCase builds the factory, seeds a pool sequentially (two key generations per
-// partition), then runs the concurrent workload under the delay plan.
-func runCase(c config, plan []kit.PlanEntry) outcome {
-	verifhook.InstallClock(time.Unix(1_700_000_000, 0))
-	defer verifhook.RemoveClock()
-	log := &kit.CallLog{}
-	store := kit.NewStore(log)
-	kmsSpy := kit.NewSpyKMS(log)
-	secrets := kit.NewTracker()
-	f := appencryption.NewSessionFactory(&appencryption.Config{Service: "svc", Product: "prod", Policy: c.pol}, store, kmsSpy, aead.NewAES256GCM(), appencryption.WithSecretFactory(secrets))
-	parts := make([]string, c.partitions)
-	for i := range parts {
-		parts[i] = fmt.Sprintf("p%d", i)
-	}
-	var poolMu sync.Mutex
-	pool := map[string][]pooled{}
-	// sequential seeding: generation 1, revoke, generation 2
-	for gen := 0; gen < 2; gen++ {
-		for _, p := range parts {
-			s, err := f.GetSession(p)
-			if err != nil {
-				return outcome{viol: "seeding: " + err.Error()}
-			}
-			pay := []byte(fmt.Sprintf("seed-%s-%d", p, gen))
-			r, err := s.Encrypt(ctx, pay)
-			s.Close()
-			if err != nil {
-				return outcome{viol: "seeding: " + err.Error()}
-			}
-			pool[p] = append(pool[p], pooled{p, pay, cloneDRR(*r)})
-		}
-		if gen == 0 {
-			for _, p := range parts {
-				if l := store.Latest(kit.RefIKID(p, "svc", "prod", "")); l != nil {
-					store.Revoke(l.ID, l.Created)
-				}
-			}
-			verifhook.Advance(3 * time.Second)
-		}
-	}
-	liveBefore := secrets.Count()
-	sc := kit.NewSched(plan, kit.SiteFilter("go/appencryption/"))
-	sc.Install()
-	defer sc.Remove()
-	var firstViol atomic.Value
-	note := func(format string, args ...any) {
-		firstViol.CompareAndSwap(nil, fmt.Sprintf(format, args...))
-	}
-	var wg sync.WaitGroup
-	for w := 0; w < c.workers; w++ {
-		wg.Add(1)
-		go func(w int) {
-			defer wg.Done()
-			defer func() {
-				if p := recover(); p != nil {
-					note("worker %d panicked: %v", w, p)
-				}
-			}()
-			x := uint32(c.seedOps[w])
-			next := func(n int) int {
-				x = x*1664525 + 1013904223
-				return int(x>>8) % n
-			}
-			var held *appencryption.Session
-			var heldPart string
-			for i := 0; i < c.opsPer && firstViol.Load() == nil; i++ {
-				part := parts[next(len(parts))]
-				s := held
-				if s == nil || heldPart != part {
-					if held != nil {
-						held.Close()
-						held = nil
-					}
-					var err error
-					s, err = f.GetSession(part)
-					if err != nil {
-						note("worker %d: GetSession(%s) failed: %v", w, part, err)
-						return
-					}
-				}
-				switch op := next(10); {
-				case op < 4:
-					pay := []byte(fmt.Sprintf("w%d-op%d", w, i))
-					r, err := s.Encrypt(ctx, pay)
-					if err != nil {
-						note("worker %d: Encrypt on %s failed: %v", w, part, err)
-						return
-					}
-					poolMu.Lock()
-					pool[part] = append(pool[part], pooled{part, pay, cloneDRR(*r)})
-					poolMu.Unlock()
-				case op < 9:
-					poolMu.Lock()
-					rec := pool[part][next(len(pool[part]))]
-					poolMu.Unlock()
-					out, err := s.Decrypt(ctx, cloneDRR(rec.drr))
-					if err != nil {
-						note("worker %d: Decrypt on %s of a record under IK created %d failed: %v", w, part, rec.drr.Key.ParentKeyMeta.Created, err)
-						return
-					}
-					if !bytes.Equal(out, rec.payload) {
-						note("worker %d: Decrypt returned other bytes", w)
-						return
-					}
-				default:
-					verifhook.Advance(600 * time.Millisecond)
-				}
-				if next(3) == 0 {
-					held, heldPart = s, part // keep the session across operations
-				} else {
-					s.Close()
-					held = nil
-				}
-			}
-			if held != nil {
-				held.Close()
-			}
-		}(w)
-	}
-	done := make(chan struct{})
-	go func() { wg.Wait(); close(done) }()
-	select {
-	case <-done:
-	case <-time.After(60 * time.Second):
-		return outcome{viol: "workers did not finish within 60s (deadlock)"}
-	}
-	sc.Remove()
-	res := outcome{fired: sc.Fired()}
-	res.sites, res.hits = sc.Sites()
-	for _, si := range secrets.InfosRange(0, secrets.Count()) {
-		if si.Origin == "New" && si.Closed > 0 && si.ID < liveBefore+1<<30 {
-			res.destroyed++
-		}
-	}
-	if v := firstViol.Load(); v != nil {
-		res.viol = v.(string)
-	}
-	if ra := secrets.ReadsAfterClose(); len(ra) > 0 && res.viol == "" {
-		res.viol = fmt.Sprintf("a key secret was accessed after it had been destroyed: %s", ra[0])
-	}
-	f.Close()
-	return res
-}
-
 var profiles sync.Map // class -> *outcome
 
 func TestDelayPlans(t *testing.T) {
 	kit.Check(t, 400, 48000, func(t *rapid.T) {
-		c := drawConfig(t)
-		class := c.class()
-		var prof *outcome
+		c := conc.DrawConfig(t)
+		class := c.Class()
+		var prof *conc.Outcome
 		if v, ok := profiles.Load(class); ok {
-			prof = v.(*outcome)
+			prof = v.(*conc.Outcome)
 		} else {
-			o := runCase(c, nil)
-			if o.viol != "" {
+			o := conc.RunCase(c, nil)
+			if o.Viol != "" {
 				report(t, c, nil, o)
 			}
 			prof = &o
 			profiles.Store(class, prof)
 		}
-		plan := kit.DrawPlan(t, prof.sites, prof.hits, 3, []time.Duration{100 * time.Microsecond, 500 * time.Microsecond, 3 * time.Millisecond})
-		o := runCase(c, plan)
-		if o.viol != "" {
+		plan := kit.DrawPlan(t, prof.Sites, prof.Hits, 3, []time.Duration{100 * time.Microsecond, 500 * time.Microsecond, 3 * time.Millisecond})
+		o := conc.RunCase(c, plan)
+		if o.Viol != "" {
 			report(t, c, plan, o)
 		}
 		var ps []string
@@ -270,16 +52,16 @@ func TestDelayPlans(t *testing.T) {
 			ps = append(ps, p.Site[strings.Index(p.Site, "appencryption/")+len("appencryption/"):])
 		}
 		sort.Strings(ps)
-		kit.Rec.Case(class+"|"+strings.Join(ps, ","), o.fired > 0 && o.destroyed > 0, func() any {
-			return map[string]any{"config": class, "workers": c.workers, "ops_per_worker": c.opsPer, "partitions": c.partitions, "plan": planString(plan), "pauses_fired": o.fired, "cached_keys_destroyed_during_run": o.destroyed}
+		kit.Rec.Case(class+"|"+strings.Join(ps, ","), o.Fired > 0 && o.Destroyed > 0, func() any {
+			return map[string]any{"config": class, "workers": c.Workers, "ops_per_worker": c.OpsPer, "partitions": c.Partitions, "plan": planString(plan), "pauses_fired": o.Fired, "cached_keys_destroyed_during_run": o.Destroyed}
 		})
-		if o.fired > 0 {
+		if o.Fired > 0 {
 			kit.Rec.Label("pause-fired")
 		}
-		if o.destroyed > 0 {
+		if o.Destroyed > 0 {
 			kit.Rec.Label("key-destroyed-during-run")
 		}
-		kit.Rec.Extra("yield_sites_in_last_profile", len(prof.sites))
+		kit.Rec.Extra("yield_sites_in_last_profile", len(prof.Sites))
 	})
 }
 
@@ -291,12 +73,12 @@ func planString(plan []kit.PlanEntry) string {
 	return strings.Join(s, " ")
 }
 
-func report(t *rapid.T, c config, plan []kit.PlanEntry, o outcome) {
-	msg := fmt.Sprintf("%s\n  config: %s workers=%d x %d ops, %d partitions\n  delay plan: %s", o.viol, c.class(), c.workers, c.opsPer, c.partitions, planString(plan))
-	if strings.Contains(o.viol, "did not finish within") {
+func report(t *rapid.T, c conc.Config, plan []kit.PlanEntry, o conc.Outcome) {
+	msg := fmt.Sprintf("%s\n  config: %s workers=%d x %d ops, %d partitions\n  delay plan: %s", o.Viol, c.Class(), c.Workers, c.OpsPer, c.Partitions, planString(plan))
+	if strings.Contains(o.Viol, "did not finish within") {
 		kit.Abort("C08 violated: " + msg)
 	}
-	kit.Rec.Violation(o.viol)
+	kit.Rec.Violation(o.Viol)
 	t.Fatalf("C08 violated: %s", msg)
 }
 
@@ -329,24 +111,24 @@ func TestSystematicSinglePreemption(t *testing.T) {
 		if tc.sess {
 			p.CacheSessions, p.SessionCacheMaxSize, p.SessionCacheEvictionPolicy = true, 1, "lru"
 		}
-		c := config{pol: p, partitions: 3, workers: 3, opsPer: 8, seedOps: []int{11, 222, 3333}}
-		prof := runCase(c, nil)
-		if prof.viol != "" {
+		c := conc.Config{Pol: p, Partitions: 3, Workers: 3, OpsPer: 8, SeedOps: []int{11, 222, 3333}}
+		prof := conc.RunCase(c, nil)
+		if prof.Viol != "" {
 			reportT(t, c, nil, prof)
 		}
-		for _, site := range prof.sites {
-			for h := 0; h < hits && h < prof.hits[site]; h++ {
+		for _, site := range prof.Sites {
+			for h := 0; h < hits && h < prof.Hits[site]; h++ {
 				unit++
 				if unit%shards != shard {
 					continue
 				}
 				plan := []kit.PlanEntry{{Site: site, Hit: h, Pause: 2 * time.Millisecond}}
-				o := runCase(c, plan)
+				o := conc.RunCase(c, plan)
 				total++
-				if o.fired > 0 && o.destroyed > 0 {
+				if o.Fired > 0 && o.Destroyed > 0 {
 					nontrivial++
 				}
-				if o.viol != "" {
+				if o.Viol != "" {
 					reportT(t, c, plan, o)
 				}
 			}
@@ -357,11 +139,11 @@ func TestSystematicSinglePreemption(t *testing.T) {
 	kit.Rec.Sample(map[string]any{"kind": "systematic single preemption", "example": "shared lru IK cache of capacity 1, 3 workers x 8 ops, pause 2ms at the 0th visit of go/appencryption/key_cache.go:<line>"})
 }
 
-func reportT(t *testing.T, c config, plan []kit.PlanEntry, o outcome) {
-	msg := fmt.Sprintf("%s\n  config: %s workers=%d x %d ops, %d partitions\n  delay plan: %s", o.viol, c.class(), c.workers, c.opsPer, c.partitions, planString(plan))
-	if strings.Contains(o.viol, "did not finish within") {
+func reportT(t *testing.T, c conc.Config, plan []kit.PlanEntry, o conc.Outcome) {
+	msg := fmt.Sprintf("%s\n  config: %s workers=%d x %d ops, %d partitions\n  delay plan: %s", o.Viol, c.Class(), c.Workers, c.OpsPer, c.Partitions, planString(plan))
+	if strings.Contains(o.Viol, "did not finish within") {
 		kit.Abort("C08 violated: " + msg)
 	}
-	kit.Rec.Violation(o.viol)
+	kit.Rec.Violation(o.Viol)
 	t.Fatalf("C08 violated: %s", msg)
 }
